@@ -1,13 +1,15 @@
 #!/bin/bash
-# usage: mutant.sh <letter> <pkgs to test...>
+# usage: mutant.sh <letter> <pkgs to go test...>
+# Fresh scratch worktree of /repo + all proposed C13 fixes (those not yet in /repo) + one property-breaking edit
+# (mutants.py); runs the package tests, then the quick check against the worktree; removes the worktree.
 export GOFLAGS=-mod=mod GOPROXY=off GOSUMDB=off GOTOOLCHAIN=local
 HERE="$(cd "$(dirname "$0")" && pwd)"; M=$1; shift
 WT=/tmp/wt-c13m-$M
-git -C /repo worktree remove --force $WT >/dev/null 2>&1
-git -C /repo worktree add --detach $WT HEAD >/dev/null 2>&1
+cd / && git -C /repo worktree remove --force $WT >/dev/null 2>&1
+git -C /repo worktree add --detach $WT -q || exit 2
 # mutants are applied on top of the proposed fixes, so that only the mutant's signatures show
-for d in /verif/proposed_fixes/C13-*.diff; do git -C $WT apply $d || exit 2; done
+for d in /verif/proposed_fixes/C13-*.diff; do git -C $WT apply $d 2>/dev/null || echo "note: $(basename $d) does not apply (already in /repo?)"; done
 (cd $WT && python3 "$HERE/mutants.py" $M) || exit 2
-(cd $WT && go build ./... && go test "$@" 2>&1 | tail -8)
-"$(dirname "$0")/runwt.sh" $WT quick mut$M 2>&1 | grep -v "^      \|^  github\|^  main\|^  verif\|^Goroutine\|^$\|^Previous\|^Write\|^Read" | head -40
-git -C /repo worktree remove --force $WT
+(cd $WT && go build ./... && go test -count=1 "$@" 2>&1 | tail -8)
+(cd /verif && VERIF_REPO=$WT ./check C13 quick 2>&1 | grep "sig=\|^C13 quick\|did not run\|ENGINE")
+cd / && git -C /repo worktree remove --force $WT; rm -rf /verif/.build/c13-alt-*
